@@ -165,3 +165,168 @@ Definition derived_field_ty (newtbl tbl : list (string * string)) (h : ty * ty) 
   | Some src => field_ty newtbl h src
   | None => None
   end.
+
+(* ---- the whole builder on [xstate], assembled from translated pieces (Section variables; they are
+   instantiated with the definitions of Gen/ValidateCode.v, Gen/BranchCode.v, Gen/AddNodeCode.v in
+   Proofs/GenAgreeC07Run.v).  What surrounds the pieces (the guards of the Add* calls, the duplicate
+   tests, the sticky build error, the bookkeeping of edges / branches) is written as in
+   Model/TypeBuilder.v; a node added with declared types gets the helper newGenericHelper[I, O] of
+   its runnable, a passthrough node none. *)
+Section XBuilder.
+  Variable entry : xstate -> key -> key -> bool -> xres.
+  Variable head : (xstate -> option xstate) -> xstate -> key -> ty -> bres.
+  Variable bend : (xstate -> option xstate) -> xstate -> key -> key -> bres.
+  Variable checks : option N -> option ty -> option ty -> option hspec -> option hspec -> bool.
+  Variable cchecks : xstate -> bool.
+
+  Definition x_upd (orc : nat -> list key) (xs : xstate) : option xstate :=
+    match x_update entry (S (List.length (g_tvm (x_st xs)))) orc 0 xs with
+    | Some (Some xs') => Some xs'
+    | _ => None
+    end.
+
+  Definition x_with (xs : xstate) (st : gstate) : xstate := {| x_st := st; x_gh := x_gh xs |}.
+  Definition x_err (xs : xstate) : xstate := x_with xs (set_err (x_st xs)).
+
+  Definition x_add_node (xs : xstate) (k : key) (isp : bool) (i o : option ty) (pre post : option hspec) : xstate * bool :=
+    let st := x_st xs in
+    if g_err st then (xs, false)
+    else if g_compiled st then (xs, false)
+    else if N.eqb k kSTART || N.eqb k kEND then (x_err xs, false)
+    else if has_node st k then (x_err xs, false)
+    else if negb (checks (g_st st) i o pre post) then (x_err xs, false)
+    else
+      let n := {| n_pass := isp; n_in := i; n_out := o;
+                  n_pre := option_map h_ty pre; n_post := option_map h_ty post;
+                  n_pre_ret := match pre with Some h => h_ret h | None => None end;
+                  n_post_ret := match post with Some h => h_ret h | None => None end |} in
+      ({| x_st := set_nodes st (g_nodes st ++ [(k, n)]);
+          x_gh := nlist_set k (match i, o with Some a, Some b => gh_new a b | _, _ => None end) (x_gh xs) |}, true).
+
+  Definition x_add_edge (orc : nat -> nat -> list key) (xs : xstate) (s e : key) : xstate * bool :=
+    let st := x_st xs in
+    if g_err st then (xs, false)
+    else if g_compiled st then (xs, false)
+    else if N.eqb s kEND then (x_err xs, false)
+    else if N.eqb e kSTART then (x_err xs, false)
+    else if negb (has_node st s) && negb (N.eqb s kSTART) then (x_err xs, false)
+    else if negb (has_node st e) && negb (N.eqb e kEND) then (x_err xs, false)
+    else if mem_pair (s, e) (g_ctrl st) then (x_err xs, false)
+    else
+      let st1 := mark_ends (set_ctrl st (g_ctrl st ++ [(s, e)])) s e in
+      if mem_pair (s, e) (g_data st1) then (x_err xs, false)
+      else
+        match x_upd (orc 0%nat) (x_with xs (set_tvm st1 (g_tvm st1 ++ [(s, e)]))) with
+        | Some xs2 => (x_with xs2 (set_data (x_st xs2) (g_data (x_st xs2) ++ [(s, e)])), true)
+        | None => (x_err xs, false)
+        end.
+
+  Fixpoint x_branch_ends (orc : nat -> nat -> list key) (j : nat) (xs : xstate) (s : key) (ends : list key) : option xstate :=
+    match ends with
+    | [] => Some xs
+    | e :: rest =>
+        match bend (x_upd (orc (S j))) xs s e with
+        | BOk xs1 _ => x_branch_ends orc (S j) xs1 s rest
+        | BFail => None
+        end
+    end.
+
+  Definition conv_tys (l : list (option ty)) : list ty :=
+    flat_map (fun o => match o with Some t => [t] | None => [] end) l.
+
+  Definition x_add_branch (orc : nat -> nat -> list key) (xs : xstate) (s : key) (t : ty) (ends choice : list key) : xstate * bool :=
+    let st := x_st xs in
+    if g_err st then (xs, false)
+    else if g_compiled st then (xs, false)
+    else if N.eqb s kEND then (x_err xs, false)
+    else if negb (has_node st s) && negb (N.eqb s kSTART) then (x_err xs, false)
+    else if Nat.eqb (List.length ends) 1 then (x_err xs, false)
+    else
+      match head (x_upd (fun n => orc 0%nat (S n))) xs s t with
+      | BOk xs1 conv =>
+          match x_branch_ends orc 0 xs1 s (order_keys (orc 0%nat 0%nat) ends) with
+          | Some xs2 =>
+              let b := {| b_ty := t; b_ends := ends; b_choice := choice; b_conv := conv_tys conv |} in
+              (x_with xs2 (set_branches (x_st xs2) (g_branches (x_st xs2) ++ [(s, b)])), true)
+          | None => (x_err xs, false)
+          end
+      | BFail => (x_err xs, false)
+      end.
+
+  (* compile: the sticky build error, then the translated checks *)
+  Definition x_compile (xs : xstate) : xstate * bool :=
+    if g_err (x_st xs) then (xs, false)
+    else if cchecks xs then (x_with xs (set_compiled (x_st xs)), true)
+    else (xs, false).
+
+  Definition x_step (orc : nat -> nat -> list key) (xs : xstate) (o : op) : xstate * bool :=
+    match o with
+    | OpNode k i ot pre post => x_add_node xs k false (Some i) (Some ot) pre post
+    | OpPass k pre post => x_add_node xs k true None None pre post
+    | OpEdge s e => x_add_edge orc xs s e
+    | OpBranch s t ends choice => x_add_branch orc xs s t ends choice
+    | OpCompile => x_compile xs
+    end.
+
+  Fixpoint x_run_ops (orcs : nat -> nat -> nat -> list key) (i : nat) (xs : xstate) (ops : list op) : xstate * list bool :=
+    match ops with
+    | [] => (xs, [])
+    | o :: rest =>
+        let '(xs1, ok) := x_step (orcs i) xs o in
+        let '(xs2, oks) := x_run_ops orcs (S i) xs1 rest in
+        (xs2, ok :: oks)
+    end.
+End XBuilder.
+
+(* ---- run time (Gen/RuntimeCode.v): the handler managers of compose/graph_manager.go *)
+Inductive rres : Type :=
+| RPass (d : dyn)     (* return value, nil *)
+| RStop               (* return nil, err *)
+| RStream.            (* the stream branch (lazy conversion: outside the value model) *)
+
+(* result of a converter / an entry wrapper *)
+Inductive eres : Type :=
+| EVal (d : dyn)      (* the value handed on *)
+| EErr                (* return nil, <error>: an ordinary error *)
+| EPanic.             (* panic(...) *)
+
+(* for _, v := range hs { value, err = v.invoke(value); if err != nil { return nil, err } } :
+   the handlers one after the other, the first error ends the loop; a handler is given by the
+   type its converter was instantiated at (a panicking handler does not return either) *)
+Fixpoint run_handlers (invoke : ty -> dyn -> eres) (hs : list ty) (value : dyn) : option dyn :=
+  match hs with
+  | [] => Some value
+  | h :: r => match invoke h value with
+              | EVal v => run_handlers invoke r v
+              | _ => None
+              end
+  end.
+
+(* ---- compile (Gen/CompileCode.v) *)
+(* for _, v := range g.toValidateMap { if len(v) > 0 … } : some entry is still pending *)
+Definition x_any_pending (xs : xstate) : bool :=
+  match g_tvm (x_st xs) with [] => false | _ :: _ => true end.
+(* for _, node := range g.nodes { if C(node) … } *)
+Definition x_any_node (p : node -> bool) (xs : xstate) : bool :=
+  existsb (fun kn => p (snd kn)) (g_nodes (x_st xs)).
+
+(* ---- WithInputKey / WithOutputKey: genericHelper.forMapInput / forMapOutput: the keyed side is
+   instantiated anew at map[string]any (the type [m] of the universe), the other side is kept *)
+Definition gh_for_map_in (m : ty) (h : helper) : helper :=
+  match h with Some (_, o) => Some (m, o) | None => None end.
+Definition gh_for_map_out (m : ty) (h : helper) : helper :=
+  match h with Some (i, _) => Some (i, m) | None => None end.
+(* field f of a helper derived through a keyed table: "copy:g" = field g of the receiver,
+   "new:T" = a new instantiation at T (only map[string]any occurs: the type [m]) *)
+Definition keyed_field_ty (newtbl tbl : list (string * string)) (m : ty) (h : ty * ty) (f : string) : option ty :=
+  match alist_get f tbl with
+  | Some src =>
+      if String.eqb (substring 0 5 src) "copy:" then field_ty newtbl h (substring 5 (String.length src - 5) src)
+      else if String.eqb src "new:map[string]any" then Some m
+      else None
+  | None => None
+  end.
+
+(* the declared type of a side of a node: map[string]any when the node was added with a key for
+   that side, else the type of its runnable / graph *)
+Definition declared_ty (m : ty) (keyed : bool) (t : option ty) : option ty := if keyed then Some m else t.
